@@ -1371,7 +1371,7 @@ ASSUMPTIONS = [
 def evidence(agg, info, plan_, tier):
     c = agg.counters
     probes = {k[6:]: v for k, v in c.items() if k.startswith('probe:')}
-    faults = {k[12:]: v for k, v in probes.items() if k.startswith('fault:')}
+    faults = {k[6:]: v for k, v in probes.items() if k.startswith('fault:')}
     faults['purge-by-peer(purge finished while a compile was in flight)'] = probes.get('purge_during_inflight_compile', 0)
     faults['small-cache(runs with bound<500)'] = sum(v for k, v in c.items() if k.startswith('bound:') and k != 'bound:500')
     sites = sorted(((v, k[10:]) for k, v in c.items() if k.startswith('faultsite:')), reverse=True)
